@@ -13,8 +13,11 @@ tvars == <<p, q, n, hist, t, l>>
 
 Proj(v) == v        \* path values are logged in exactly the record shape of Paths.tla
 
-Bases == [srcdir |-> <<"s">>, builddir |-> <<"b b">>, prefix |-> <<"usr", "p">>, absolute |-> <<>>]
-RealStr(v) == (IF v.destdir THEN <<"d">> ELSE <<>>) \o Bases[v.root]
+\* (bindir and mandir are given relative to other install directories: a chain of base directories)
+Bases == [srcdir |-> <<"s">>, builddir |-> <<"b b">>, prefix |-> <<"usr", "p">>, absolute |-> <<>>,
+          bindir |-> <<"usr", "p", "bin d">>, mandir |-> <<"usr", "p", "share", "man">>]
+Chained == {"bindir", "mandir"}
+RealStr(v) == (IF v.destdir /\ v.root \notin Chained THEN <<"d">> ELSE <<>>) \o Bases[v.root]
               \o (IF v.drive THEN <<"C:">> ELSE <<>>) \o v.comps
 
 \* the value the reference assigns to the call logged in event e, given current value cur
